@@ -166,3 +166,88 @@ impl<C: Ctx> Keymaker<C> {
         Ok(!notok)
     }
 }
+
+/// Verification hooks (feature `strand_verif` only): public wrappers that
+/// forward to the crate-private `Keymaker` API unchanged.
+#[cfg(feature = "strand_verif")]
+pub mod verif {
+    use super::*;
+
+    pub struct VKeymaker<C: Ctx>(Keymaker<C>);
+
+    impl<C: Ctx> VKeymaker<C> {
+        pub fn gen(ctx: &C) -> Self {
+            VKeymaker(Keymaker::gen(ctx))
+        }
+        pub fn from_sk(sk: PrivateKey<C>, ctx: &C) -> Self {
+            VKeymaker(Keymaker::from_sk(sk, ctx))
+        }
+        pub fn share(
+            &self,
+            label: &[u8],
+        ) -> Result<(PublicKey<C>, Schnorr<C>), StrandError> {
+            self.0.share(label)
+        }
+        pub fn decryption_factor(
+            &self,
+            c: &Ciphertext<C>,
+            label: &[u8],
+        ) -> Result<(C::E, ChaumPedersen<C>), StrandError> {
+            self.0.decryption_factor(c, label)
+        }
+        #[allow(clippy::type_complexity)]
+        pub fn decryption_factor_many(
+            &self,
+            cs: &[Ciphertext<C>],
+            label: &[u8],
+        ) -> Result<(Vec<C::E>, Vec<ChaumPedersen<C>>), StrandError> {
+            self.0.decryption_factor_many(cs, label)
+        }
+    }
+
+    pub fn verify_share<C: Ctx>(
+        ctx: &C,
+        pk: &PublicKey<C>,
+        proof: &Schnorr<C>,
+        label: &[u8],
+    ) -> bool {
+        Keymaker::verify_share(ctx, pk, proof, label)
+    }
+    pub fn combine_pks<C: Ctx>(
+        ctx: &C,
+        pks: Vec<PublicKey<C>>,
+    ) -> PublicKey<C> {
+        Keymaker::combine_pks(ctx, pks)
+    }
+    pub fn joint_dec<C: Ctx>(
+        ctx: &C,
+        decs: Vec<C::E>,
+        c: &Ciphertext<C>,
+    ) -> C::E {
+        Keymaker::joint_dec(ctx, decs, c)
+    }
+    pub fn joint_dec_many<C: Ctx>(
+        ctx: &C,
+        decs: &[Vec<C::E>],
+        cs: &[Ciphertext<C>],
+    ) -> Vec<C::E> {
+        Keymaker::joint_dec_many(ctx, decs, cs)
+    }
+    pub fn verify_decryption_factors<C: Ctx>(
+        ctx: &C,
+        pk_value: &C::E,
+        ciphertexts: &[Ciphertext<C>],
+        decs: &[C::E],
+        proofs: &[ChaumPedersen<C>],
+        label: &[u8],
+    ) -> Result<bool, StrandError> {
+        Keymaker::verify_decryption_factors(
+            ctx,
+            pk_value,
+            ciphertexts,
+            decs,
+            proofs,
+            label,
+        )
+    }
+}
